@@ -40,7 +40,13 @@ def tiers(tier):
 
 
 SHAPES = ['{T}', 'list[{T}]', 'Optional[{T}]', 'Union[{T}, int]', 'dict[str, {T}]', 'tuple[{T}, ...]', 'tuple[int, {T}]',
-          'type[{T}]', 'list[Optional[{T}]]', '{T} | None', 'Union[{T}, {U}]']
+          'type[{T}]', 'list[Optional[{T}]]', '{T} | None', 'Union[{T}, {U}]',
+          # the name hidden in a child that beartype ignores (a union with object): never visited when the checker is
+          # generated, visited when a rejection is explained
+          'tuple[Union[{T}, object], int]', 'dict[str, Union[{T}, object]]', 'list[Union[{T}, object]]',
+          'tuple[int, Optional[Union[{T}, object]]]']
+IGNORABLE_SHAPES = ('tuple[Union[{T}, object], int]', 'dict[str, Union[{T}, object]]', 'list[Union[{T}, object]]',
+                    'tuple[int, Optional[Union[{T}, object]]]')
 
 
 def generate(rng, run, tier):
@@ -67,7 +73,12 @@ def generate(rng, run, tier):
     later_needed = 'Later' in text
     n = rng.randint(3, 8)
     defined = False
-    objs = ['T', 'T', 'other', 'int', 'str', 'none', 'list_T', 'list_other', 'dict_T', 'tuple_T', 'cls_T', 'tuple_int_T', 'list_none']
+    objs = ['T', 'T', 'other', 'int', 'str', 'none', 'list_T', 'list_other', 'dict_T', 'tuple_T', 'cls_T', 'tuple_int_T', 'list_none',
+            'tuple_T_str', 'tuple_str_T', 'dict_int_T']
+    if shape in IGNORABLE_SHAPES and rng.random() < 0.9:
+        # avoid switch: known finding C07-fwdref-hidden-in-ignorable-child (most runs steer around it)
+        shape = 'list[{T}]'
+        text = shape.format(T=t, U=u)
     for i in range(n):
         if later_needed and not defined and rng.random() < 0.3:
             events.append({'e': 'define', 'n': 'Later'})
@@ -148,6 +159,12 @@ def _obj(kind, tcls, other):
         return (1, tcls())
     if kind == 'list_none':
         return [None, tcls()]
+    if kind == 'tuple_T_str':
+        return (tcls(), 's')
+    if kind == 'tuple_str_T':
+        return ('s', tcls())
+    if kind == 'dict_int_T':
+        return {1: tcls()}
     raise ValueError(kind)
 
 
@@ -314,7 +331,16 @@ def _sig_closure_fake(case, v):
     return v.get('kind') == 'unresolved_not_reported' and case.get('placement') == 'closure'
 
 
-SIGNATURES = {'closure_fake_forwardref': _sig_closure_fake}
+def _sig_hidden_ref(case, v):
+    """Known finding C07-fwdref-hidden-in-ignorable-child: the explanation path meets a quoted name that code generation skipped."""
+    d = v.get('detail', '')
+    return (v.get('kind') == 'differs_from_evaluated' and ', object]' in case.get('text', '')
+            and "string form ['beartype', 'BeartypeDecorHintForwardRefException']" in d
+            and ("evaluated form ['beartype', 'BeartypeCallHintParamViolation']" in d
+                 or "evaluated form ['beartype', 'BeartypeCallHintReturnViolation']" in d))
+
+
+SIGNATURES = {'closure_fake_forwardref': _sig_closure_fake, 'fwdref_hidden_in_ignorable_child': _sig_hidden_ref}
 
 
 def describe(case):
